@@ -103,7 +103,7 @@ class CheckpointAction:
         return f"{type(self).__name__}({', '.join(strargs)})"
 
     def __eq__(self, other):
-        return isinstance(self, other) and self.args == other.args
+        return type(self) is type(other) and self.args == other.args
 
 
 class Forward(CheckpointAction):
